@@ -90,7 +90,7 @@ def hostile_id_histories(s, n):
             kind = K.weighted_kinds(rng, K.kind_weights(1, 1, 0.3, 0.02))
             msg = gen.rand_message(rng, state, kind, 100 + k, ids, pool=pool,
                                    timing=rng.choice(['any', 'none']),
-                                   shape_weights=(0.5, 0.2, 0.25, 0.05), selfref=0.25)
+                                   shape_weights=(0.5, 0.2, 0.25, 0.05), selfref=0.25, blank_carried=0.1)
             ro, err, v, ev = s.step(ro, msg, {'hostile-ids': h, 'step': k})
             if ev is not None and ev.get('post_xml'):
                 cur = ev['post_xml']
@@ -110,7 +110,7 @@ def nonstrict_collections(s, n):
         for k in range(rng.randint(3, 12)):
             kind = K.weighted_kinds(rng, K.kind_weights(1, 1, 0.3, 0.03))
             docs.append(gen.rand_message(rng, state, kind, 10 + k, ids, pool=pool, timing=rng.choice(['any', 'none']),
-                                         shape_weights=(0.4, 0.3, 0.25, 0.05), selfref=0.3))
+                                         shape_weights=(0.4, 0.3, 0.25, 0.05), selfref=0.3, blank_carried=0.15))
         mc, cerr, merr, wl = K.collection_merge(s, docs, strict=False, ctx={'collection': c})
         s.note_sig(('nonstrict', type(merr).__name__ if merr else 'ran-to-end',
                     min(sum(1 for w in wl if type(w.message).__name__ == 'MosMergeNonStrictWarning'), 4)))
@@ -135,7 +135,7 @@ def run(s):
     K.story_grid(s, 3, layouts=('between',), pretties=(False,), full=False, timed=(False,))
     K.item_grid(s, 2, pretties=(False,), full=False, inters=(True,))
     K.fuzz(s, 150 if q else 6000, K.kind_weights(1, 1, 0.4, 0.02), steps=(10, 40), text='hostile',
-           timing='any', shape_weights=(0.5, 0.2, 0.25, 0.05), selfref=0.25)
+           timing='any', shape_weights=(0.5, 0.2, 0.25, 0.05), selfref=0.25, blank_carried=0.06)
     hostile_id_histories(s, 60 if q else 2500)
     nonstrict_collections(s, 60 if q else 2500)
     classify_docs(s, 800 if q else 40000)
